@@ -11,22 +11,22 @@ CHECKS = {
    "DESIGN.md §6 C12, §4.3"),
  "C14": ("model_checking",
    "bounded-exhaustive enumeration of segment words × IFS settings against a reference splitter",
-   "Every word of up to 6 (quick) / 7 (thorough) segments over the 8 segment kinds of the statement, under 7 IFS settings and 3 realisations (literal parts, parameter expansions, single quotes), is expanded by the real Expand and compared with a splitter written from the statement. Complete within those bounds.",
+   "Every word of up to 6 (quick) / 7 (thorough) segments over the 8 segment kinds of the statement, under 7 IFS settings and 3 realisations (literal parts, parameter expansions, single quotes), is expanded by the real Expand and compared with a splitter written from the statement; additionally histories on ONE environment: every sequence of ≤ 3 (thorough 4) IFS settings with 5 probe words expanded after each change, and every pair (IFS1, probe) then (IFS2, word ≤ 3 characters over {a space , : é tab}). Complete within those bounds.",
    "Trusts the reference splitter (c14Ref); words are built as AST values with NoGlob set; longer words and other IFS values are outside the bound.",
    "DESIGN.md §6 C14, §4.2"),
  "C11": ("model_checking",
    "bounded-exhaustive enumeration of expression trees × environments against a reference evaluator",
-   "All expression trees of depth ≤ 1 over every operator and 16 operands under 64 variable environments in 4 layouts, plus every depth-1 tree in every depth-1 context (one-hole depth 2; thorough: complete depth 2 for binary/logical roots over 4 operands), are evaluated by the real Eval and compared (value, error/no error, variable store) with a tree-walking int64 evaluator; expressions C leaves undefined are detected and excluded. Complete within those bounds.",
+   "All expression trees of depth ≤ 1 over every operator and 16 operands under 64 variable environments in 4 layouts, plus every depth-1 tree in every depth-1 context (one-hole depth 2; thorough: complete depth 2 for binary/logical roots over 4 operands) and every depth-1 tree (faulty ones included) as the operand C skips in 0&&h, 1||h, 1?0:h, 0?h:1 combined with 4 evaluated assignments/increments in 6 contexts, are evaluated by the real Eval and compared (value, error/no error, variable store) with a tree-walking int64 evaluator; expressions C leaves undefined are detected and excluded. Complete within those bounds.",
    "Trusts the reference evaluator; which of several errors is reported is not compared; for unsequenced operators any operand evaluation order is accepted; schedule dependence of Eval is C06's subject.",
    "DESIGN.md §6 C11, §4.4"),
  "C13": ("model_checking",
    "bounded-exhaustive enumeration of the parameter-expansion product against a table-driven reference model",
-   "The complete product of 10 parameter kinds × every operator form × word/pattern menus × 4 positions × 8 variable states × 6 positional lists × nounset × 4 IFS settings (≈1.6 M cases) is parsed by the real parser, expanded by the real Expand and compared (fields, error type, variable store) with an independent model of the POSIX table, $@/$*, nounset and the C14 splitter.",
+   "The complete product of 10 parameter kinds × every operator form × word/pattern menus × 4 positions × 8 variable states × 6 positional lists × nounset × 4 IFS settings (≈1.6 M cases) is parsed by the real parser, expanded by the real Expand and compared (fields, error type, variable store, positional parameters read back unchanged) with an independent model of the POSIX table, $@/$*, nounset and the C14 splitter.",
    "Trusts xpmodel.go; constructs POSIX leaves open ($- empty, ${#@}, $@/$* without positionals under non-colon operators, removal on $*, quoted word of := outside quotes) are only required not to panic; values and words outside the menus are not explored.",
    "DESIGN.md §6 C13, §4.2"),
  "C15": ("model_checking",
    "bounded-exhaustive enumeration of strings × quoting styles × modes × environments with an intrinsic oracle",
-   "Every string of up to 4 (quick) / 5 (thorough) characters over 18 shell-significant characters (incl. / and .) is written under single, double, backslash and mixed quoting, parsed by the real parser and expanded under all 6 ExpModes in 4 adversarial environments (IFS from the alphabet, HOME, positional parameters, a scratch working directory holding files named like the strings); the result must be exactly one field equal to the string, in Pattern mode a pattern whose elements are all literal.",
+   "Every string of up to 4 (quick) / 5 (thorough) characters over 20 shell-significant characters (incl. / . CR TAB) is written under single, double, backslash and mixed quoting, parsed by the real parser and expanded under all 6 ExpModes in 4 adversarial environments (IFS from the alphabet, HOME, positional parameters, a scratch working directory holding files named like the strings); the result must be exactly one field equal to the string, in Pattern mode a pattern whose elements are all literal.",
    "Backslash-newline excluded from the backslash style; Pattern mode judged by the pattern model of C12; longer strings / other characters outside the bound.",
    "DESIGN.md §6 C15"),
  "C16": ("model_checking",
@@ -36,12 +36,12 @@ CHECKS = {
    "DESIGN.md §6 C16, §4.3"),
  "C20": ("model_checking",
    "explicit-state BFS over operation histories of the real ExecEnv against a map model",
-   "Breadth-first search to depth 4 (quick) / 6 (thorough) from 8 initial environments over an alphabet of ≈200 Set/Unset/Expand/Eval operations on ordinary, special and positional names; every operation is applied in every distinct reachable store state (successor = replay of the shortest history on a fresh instance + 1 operation); after every transition Walk, Get of 17 names, Args, Opts, Aliases and the AST passed in are compared with a plain map model.",
+   "Breadth-first search to depth 4 (quick) / 6 (thorough) from 8 initial environments over an alphabet of ≈ 215 Set/Unset/Expand/Eval operations (Eval incl. short-circuit forms whose skipped operand assigns or faults) on ordinary, special and positional names; every operation is applied in every distinct reachable store state (successor = replay of the shortest history on a fresh instance + 1 operation); after every transition Walk, Get of 17 names, Args, Opts, Aliases and the AST passed in are compared with a plain map model.",
    "Trusts the map model; canonical state drops Export/ReadOnly (no operation of the alphabet observes them); process environment cleared so NewExecEnv starts from {IFS}.",
    "DESIGN.md §6 C20, §2 E3"),
  "C02": ("model_checking",
    "bounded-exhaustive enumeration of symbol strings and grammar derivations against a reference grammar model",
-   "Every string of ≤ 3 symbols over the 59-symbol alphabet, ≤ 4 over the 38-symbol core, ≤ 5 over 20 and ≤ 6 over 16 symbols (thorough: one more each) is classified by an independent recursive-descent model of XCU 2.10 that also builds the expected AST; every accepted string is parsed by the real parser and the position-free AST dump, the comments and the documented node shapes must agree exactly.",
+   "Every string of ≤ 3 symbols over the 59-symbol alphabet, ≤ 4 over the 38-symbol core, ≤ 5 over 20 and ≤ 6 over 16 symbols (thorough: one more each) is classified by an independent recursive-descent model of XCU 2.10 that also builds the expected AST; every accepted string is parsed by the real parser and the position-free AST dump, the comments and the documented node shapes must agree exactly. The same for the derivation sets (D0-D3, DH, DC = a closer directly after a redirected compound command, the word menu and the generated word space WG: every word of ≤ 2 parts from a 49-part menu / 3 parts from a 21-part menu at 5 positions) in canonical and tight layout, and for the accepted single-symbol mutants.",
    "Trusts gram.go (cross-validated against dash/bash at design time); verdicts POSIX leaves open are skipped; programs longer than the bounds are covered only by the derivation sets.",
    "DESIGN.md §6 C02, §4.1"),
  "C03": ("model_checking",
@@ -51,22 +51,22 @@ CHECKS = {
    "DESIGN.md §6 C03, §4.1"),
  "C04": ("model_checking",
    "bounded-exhaustive enumeration of accepted sources with an intrinsic position oracle",
-   "Every source of the C02 spaces that the real parser accepts (all symbol strings of the tier's alphabets/bounds; derivation sets D0-D3 and the word menu in one-line, tight and multi-line layouts, each also with multi-byte words) is walked with a typed position checker: every documented position field must spell its token in the source, Pos() <= End(), both inside the source, non-empty nodes have non-zero End(), children inside parents, siblings increasing, adjacent word parts touch, and for words without substitutions source[Pos:End) equals the printed node.",
+   "Every source of the C02 spaces that the real parser accepts (all symbol strings of the tier's alphabets/bounds; derivation sets D0-D3, DH, DC, the word menu and the generated word space WG in one-line, tight, multi-line and end-of-input (no final newline) layouts, each also with multi-byte words) is walked with a typed position checker: every documented position field must spell its token in the source, Pos() <= End(), both inside the source, non-empty nodes have non-zero End(), children inside parents, siblings increasing, adjacent word parts touch, and for words without substitutions source[Pos:End) equals the printed node.",
    "Intrinsic to (source, AST); aliases and line continuations are excluded by the property; containment is not demanded for nodes that carry a here-document; Comment.End excluded.",
    "DESIGN.md §6 C04"),
  "C06": ("model_checking",
    "stateless model checking of the implementation: controlled scheduler + DFS over all interleavings of the hooked lexer/parser goroutine operations",
-   "go.sh is built with -tags verif; every synchronisation operation between the parser and its lexer goroutines (token hand-off including both outcomes of an ambiguous select, cancel, here-document queue, nested lexer join, error slots, return of the call) is a point owned by a cooperative scheduler. For every ParseCommands input of ≤ 3 (quick) / 4 (thorough) pieces over a 14-piece alphabet, 10 longer inputs (preemption bound ≤ 2), every input of ≤ 2 (thorough 3) pieces plus 9 nested-substitution inputs with the reader failing from / once at every rune index, and every Eval input of ≤ 4 / 5 tokens over a 12-token alphabet, ALL schedules are enumerated (≈ 7·10^4 executions, 8·10^5 transitions in the quick tier): one result per input, no deadlock, nothing alive or active after the return. Schedules are replayed for determinism; a free-running pass (GOMAXPROCS 1/2/16) must only produce explored results, and the same bodies run under the race detector.",
+   "go.sh is built with -tags verif; every synchronisation operation between the parser and its lexer goroutines (token hand-off including both outcomes of an ambiguous select, cancel, here-document queue, nested lexer join, error slots, return of the call) is a point owned by a cooperative scheduler. For every ParseCommands input of ≤ 3 (quick) / 4 (thorough) pieces over a 15-piece alphabet (incl. a numbered here-document whose delimiter never comes), 15 longer inputs (preemption bound ≤ 2), the generator's lists of leaf commands and default-filled compounds with each single-symbol deletion (preemption bound ≤ 1), every input of ≤ 2 (thorough 3) pieces plus 9 nested-substitution inputs with the reader failing from / once at every rune index, and every Eval input of ≤ 4 / 5 tokens over a 12-token alphabet, ALL schedules are enumerated (≈ 7·10^4 executions, 8·10^5 transitions in the quick tier): one result per input, no deadlock, nothing alive or active after the return. Schedules are replayed for determinism; a free-running pass (GOMAXPROCS 1/2/16) must only produce explored results, and the same bodies run under the race detector, which also runs 484 ordered pairs of calls concurrently (results equal to the solo results; shared package-level state shows as a race).",
    "The controller owns the hooked operations only: unhooked unsynchronised accesses and memory-model effects are seen by the supplementary -race pass alone; executions per input are capped (20 000 / 200 000).",
    "DESIGN.md §6 C06, §2 E2, §3"),
  "C07": ("model_checking",
    "explicit-state search over command streams (state = reader offset, transition = one ParseCommands call)",
-   "Every stream that concatenates ≤ 3 (quick) / 4 (thorough) commands from a 67-entry menu (single-line, multi-line compound, here-documents in every position incl. <<- and quoted delimiters, trailing comments, line continuations, blank lines, multi-line quotes/substitutions), each also with the last command lacking its final newline, is read by successive ParseCommands calls from a strings.Reader and a custom RuneScanner; after every call the offset must be the (constructed) end of that command and the result must equal the result of parsing that command's text alone; blank lines give empty results.",
+   "Every stream that concatenates ≤ 3 (quick) / 4 (thorough) commands from a 67-entry menu (single-line, multi-line compound, here-documents in every position incl. <<- and quoted delimiters, trailing comments, line continuations, blank lines, multi-line quotes/substitutions), each also with the last command lacking its final newline, and every generator derivation (D0, D1, DH, DC, word menu; two layouts) as first command followed by each of 5 continuations, is read by successive ParseCommands calls from a strings.Reader and a custom RuneScanner; after every call the offset must be the (constructed) end of that command and the result must equal the result of parsing that command's text alone; blank lines give empty results.",
    "Command boundaries are known by construction; comment-only lines are excluded (pinned by go.sh's own tests); streams beyond the menu are not explored.",
    "DESIGN.md §6 C07, §2 E3"),
  "C08": ("model_checking",
    "stateless model checking of the implementation (controlled scheduler + DFS) over a bounded-exhaustive space of here-document programs",
-   "32 host templates with 1-3 here-document sites (simple command, pipes, lists, every compound form, function bodies, compound redirections, inside $( ) and backquotes, before && / | + newline, numbered, several on one or on different lines) × {<<, <<- with 0-3 tabs before the delimiter line} × 4 delimiter quotings × bodies from a 12-line menu (empty lines, delimiter look-alikes, tab-indented lines, $v, $(c), `c`, backslashes): ≈ 5·10^4 programs in the quick tier, each run under ALL schedules of the lexer/parser pair (one site) or all schedules with ≤ 1 preemption (more sites, which contains both extreme schedules). Per redirection, in operator order: the printed body is byte-identical to the body written, Delim is the delimiter line, the body is split into expansions iff no part of the delimiter was quoted; the same under every schedule; no deadlock on the here-document queue.",
+   "37 host templates with 1-3 here-document sites (simple command, pipes, lists, every compound form, function bodies, compound redirections, inside $( ) and backquotes, before && / | + newline, numbered, several on one or on different lines) × {<<, <<- with 0-3 tabs before the delimiter line} × 4 delimiter quotings × bodies from a 12-line menu (empty lines, delimiter look-alikes, tab-indented lines, $v, $(c), `c`, backslashes): ≈ 5·10^4 programs in the quick tier, each run under ALL schedules of the lexer/parser pair (one site) or all schedules with ≤ 1 preemption (more sites, which contains both extreme schedules). Per redirection, in operator order: the printed body is byte-identical to the body written, Delim is the delimiter line, the body is split into expansions iff no part of the delimiter was quoted; the same under every schedule; no deadlock on the here-document queue. Second phase: every generator sentence that carries a here-document (D0, D1, DH; thorough D2, DC) in one-line and multi-line layout under all schedules with ≤ 1 preemption, judged against the grammar model's AST.",
    "Backslash-newline inside bodies is outside the alphabet; scheduler assumptions as for C06.",
    "DESIGN.md §6 C08, §2 E2"),
  "C09": ("model_checking",
@@ -81,7 +81,7 @@ CHECKS = {
    "DESIGN.md §6 C10, §2 E4"),
  "C17": ("model_checking",
    "bounded-exhaustive enumeration of alias tables × symbol strings against a reference replacement",
-   "Every alias table with ≤ 2 entries (thorough: ≤ 3) over 3 names and a 16-value menu (chains, cycles, self reference, trailing blanks, operators, reserved words, assignments, redirections, quoted names) plus 8 fixed three-entry chains × every string of ≤ 3 (thorough: ≤ 4) symbols over a 13-symbol alphabet: the reference model performs the textual replacement on the symbol string (command-name positions from the grammar model, recursion guard, trailing-blank rule, cross-checked against bash and dash), the unfolded text is parsed by the real parser without aliases and must give the same position-free AST; every run terminates.",
+   "Every alias table with ≤ 2 entries (thorough: ≤ 3) over 3 names and an 18-value menu (chains, cycles, self reference, trailing blanks, operators, reserved words, assignments, redirections, quoted names, values holding two commands that are aliases) plus 8 fixed three-entry chains and 140 three-entry tables whose outer value holds several commands that are aliases × every string of ≤ 3 (thorough: ≤ 4) symbols over a 13-symbol alphabet: the reference model performs the textual replacement on the symbol string (command-name positions from the grammar model, recursion guard, trailing-blank rule, cross-checked against bash and dash), the unfolded text is parsed by the real parser without aliases and must give the same position-free AST; every run terminates.",
    "Only the substitution is modelled, the unfolded text goes through the real parser; alias values with newlines are covered for termination only (C01).",
    "DESIGN.md §6 C17"),
  "C01": ("model_checking",
@@ -91,7 +91,7 @@ CHECKS = {
    "DESIGN.md §6 C01"),
  "C05": ("model_checking",
    "bounded-exhaustive enumeration of accepted programs × all 256 printer configurations with a metamorphic round-trip oracle",
-   "Every program the parser accepts among all strings of ≤ 4 (quick) / 5 (thorough) symbols over a 32-symbol alphabet and the derivation sets D0-D2 and DH (a here-document followed on its line by each compound form; thorough: D3) in one-line and multi-line layout is printed under all 256 Config combinations; each distinct output is parsed again and must have the same semantic skeleton (and-or lists with async flag, pipelines, commands, words and parts, redirections, here-document bodies byte for byte).",
+   "Every program the parser accepts among all strings of ≤ 4 (quick) / 5 (thorough) symbols over a 32-symbol alphabet and the derivation sets D0-D2, DH (a here-document, optionally a multi-line substitution, followed on its line by each compound form) and DC (thorough: D3) in one-line and multi-line layout is printed under all 256 Config combinations, the generated word space WG (as argument, command name/assignment and redirection target) under the 16 Configs that vary the word-level options; each distinct output is parsed again and must have the same semantic skeleton (and-or lists with async flag, pipelines, commands, words and parts, redirections, here-document bodies byte for byte).",
    "The original parse is the oracle; `;`, newline and no separator are identified; programs outside the generated sets are not explored.",
    "DESIGN.md §6 C05"),
  "C18": ("model_checking",
@@ -101,7 +101,7 @@ CHECKS = {
    "DESIGN.md §6 C18"),
  "C19": ("model_checking",
    "bounded-exhaustive enumeration of inputs per entry point in crash-isolated worker processes",
-   "Every AST the parser returns for the C01 corpora and for the derivation sets (D0-D2, DH, word menu, two layouts) is measured (Pos/End of every node), printed under 16 (quick) / 256 Configs and every word in it expanded under all 6 modes; every token string of ≤ 4 / 5 tokens over a 20-token alphabet goes through Eval, every pattern of ≤ 4 / 5 characters over 12 pattern characters through Match (6 subjects, mode combinations) and over 9 characters through Glob; all 2^14 Option values; nesting depths 1-40 × 12 indentation styles; all under GODEBUG=panicnil=0 and =1. No panic, no process death, only documented error types.",
+   "Every AST the parser returns for the C01 corpora and for the derivation sets (D0-D2, DH, DC, word menu, generated word space WG at 5 positions; two layouts) is measured (Pos/End of every node), printed under 16 (quick) / 256 Configs and every word in it expanded under all 6 modes; every token string of ≤ 4 / 5 tokens over a 20-token alphabet goes through Eval, every pattern of ≤ 4 / 5 characters over 12 pattern characters through Match (6 subjects, mode combinations) and over 9 characters through Glob; all 2^14 Option values; nesting depths 1-40 × 12 indentation styles; all under GODEBUG=panicnil=0 and =1. No panic, no process death, only documented error types.",
    "Oracle is 'terminates without panic, documented error types'; values are C11-C16's subject.",
    "DESIGN.md §6 C19"),
 }
